@@ -182,3 +182,26 @@ def c04(r):
     scs = r.gen('Gen_C04', 'Gen_C04.cfg')
     r.exhaustive = True
     r.conform(scs)
+
+
+@prop('C07')
+def c07(r):
+    r.assumptions += ['error@2 (message text) is not compared',
+                      'loop variables keep their last value after a for loop (observed, manual silent)',
+                      'sanitizer reports are observed on the replayed scenarios only']
+    depth = 2 if r.quick else 3
+    scs = r.gen('Gen_C07', 'Gen_C07.cfg', env={'GEN_DEPTH': str(depth), 'GEN_SAMPLE': '1'}, timeout=3000)
+    r.exhaustive = True
+    r.extra['bounds'] = 'nesting depth <= %d over 13 wrappers (8 handler sets, for, forall, while, if, call) x 10 leaves; batch and stepwise; probe + dump' % depth
+    r.conform(scs)
+
+
+@prop('C06')
+def c06(r):
+    r.assumptions += ['64-bit boundary constants are symbolic in the ideal layer (BigC): sound where the program does not overflow',
+                      'value of the control variable after a for loop = last value visited (observed, manual silent)']
+    depth = 2 if r.quick else 3
+    scs = r.gen('Gen_C06', 'Gen_C06.cfg', env={'GEN_DEPTH': str(depth)}, timeout=3000)
+    r.exhaustive = True
+    r.extra['bounds'] = 'all for headers of the lattice {-2..3, null, MAX-2..MAX, MIN..MIN+2} x 7 steps x 3 directions; forall orders/writes; break/continue/return at the bottom of nestings of depth <= %d' % depth
+    r.conform(scs)
